@@ -18,6 +18,7 @@ import (
 	"github.com/cnotch/ipchub/config"
 	"github.com/cnotch/ipchub/media"
 	"github.com/cnotch/ipchub/network/websocket"
+	"github.com/cnotch/ipchub/provider/auth"
 	"github.com/cnotch/ipchub/provider/security"
 	"github.com/cnotch/ipchub/service/rtsp"
 	"github.com/cnotch/ipchub/stats"
@@ -291,6 +292,9 @@ func (s *Session) onDescribe(resp *rtsp.Response, req *rtsp.Request) {
 	s.url = req.URL
 	s.path = s.conn.Path() // 使用websocket路径
 	// s.path = utils.CanonicalPath(req.URL.Path)
+	if !s.checkPullRight(resp) {
+		return
+	}
 	stream := media.GetOrCreate(s.path)
 	if stream == nil {
 		resp.StatusCode = rtsp.StatusNotFound
@@ -383,6 +387,9 @@ func (s *Session) onPlay(resp *rtsp.Response, req *rtsp.Request) {
 		return
 	}
 
+	if !s.checkPullRight(resp) {
+		return
+	}
 	stream := media.GetOrCreate(s.path)
 	if stream == nil {
 		resp.StatusCode = rtsp.StatusNotFound
@@ -399,6 +406,25 @@ func (s *Session) onPlay(resp *rtsp.Response, req *rtsp.Request) {
 	s.status = statusPlaying
 	s.paused = false
 	return
+}
+
+// checkPullRight decides DESCRIBE and PLAY by the rights saved now. The HTTP
+// side checked the token and the pull right when the control channel was
+// opened; the account may have been deleted or narrowed since.
+func (s *Session) checkPullRight(resp *rtsp.Response) bool {
+	if !config.Auth() {
+		return true
+	}
+	user := auth.Get(s.wsUser)
+	if user == nil {
+		resp.StatusCode = rtsp.StatusUnauthorized
+		return false
+	}
+	if !user.ValidatePermission(s.path, auth.PullRight) {
+		resp.StatusCode = rtsp.StatusForbidden
+		return false
+	}
+	return true
 }
 
 func (s *Session) onPause(resp *rtsp.Response, req *rtsp.Request) {
